@@ -446,12 +446,34 @@ def _s2_theorem_bound(method, r):
         return 1.0 - (r * np.pi / 180) ** 2 / 4          # squared chord <= (r pi/180)^2 / 2
     if method == "equal_area" and 0.002 <= r <= 360:
         return float(np.cos(r * np.pi / 360) - r / 180)
+    if method == "spherified_cube_edge":
+        return 1.0 - (r * np.pi / 180) ** 2                # squared chord <= 2 (r pi/180)^2
+    if method == "spherified_cube_corner":
+        return 1.0 - 9.0 / 8.0 * (r * np.pi / 180) ** 2    # squared chord <= 9/4 (r pi/180)^2
+    if method == "normalized_cube" and r < 90:
+        return 1.0 - np.tan(r * np.pi / 180) ** 2 / 4      # squared chord <= tan(r)^2 / 2
     return None
 
 
 def _s2_adversarial(method, r):
     """directions half-way between neighbouring grid lines, next to the poles and at the equator"""
     out = []
+    if "cube" in method:
+        # face centres, edge midpoints, corners, and points half-way between grid lines near a corner and a face centre
+        ang = {"spherified_cube_edge": np.pi / 4, "spherified_cube_corner": np.arctan(np.sqrt(2))}.get(method)
+        if ang is None:
+            n = max(1, int(np.ceil(1 / np.tan(np.deg2rad(r))))) if r < 90 else 1
+            mids = [(-0.5) / n, (n - 0.5) / n, (n // 2 + 0.5) / n]
+        else:
+            n = max(1, int(np.ceil(ang / np.deg2rad(r))))
+            sc = np.tan(ang)
+            mids = [np.tan((i + 0.5) * ang / n) / sc for i in (-1, n - 1, n // 2)]
+        for a in mids + [0.0, 1.0]:
+            for b in mids + [0.0, 1.0]:
+                for p in ([a, b, 1.0], [1.0, a, -b], [-a, -1.0, b]):
+                    out.append(p)
+        o = np.array(out, dtype=float)
+        return o / np.linalg.norm(o, axis=1, keepdims=True)
     if method == "equal_area":
         D = int(np.ceil(90 / r))
         us = [1 - (i + 0.5) / D for i in {0, 1, D - 1, D, 2 * D - 2, 2 * D - 1} if 0 <= i < 2 * D]
@@ -500,7 +522,8 @@ def s2_any_check(ctx, c, outs):
         tt = np.concatenate([t, _s2_adversarial(c["method"], r)])
         best = (tt @ v.T).max(axis=1)
         k = int(np.argmin(best))
-        ctx.dev(f"s2_theorem_bound_minus_best/{c['method']}", float(thm - best[k]))
+        if thm < 1:     # fraction of the proved allowance 1 - v.g actually used by the worst direction
+            ctx.dev(f"s2_theorem_allowance_used/{c['method']}", float((1 - best[k]) / (1 - thm)))
         if best[k] < thm - 1e-12:
             return (f"sample_S2({r!r}, method={c['method']!r}) ({len(v)} vectors): direction {tt[k].tolist()} has largest scalar product "
                     f"{best[k]!r} with the mesh < {thm!r}: the covering theorem proved for the model does not hold for the "
@@ -999,7 +1022,7 @@ def generate(ctx):
 
 def run(ctx, status):
     driver_ok = lean_phase(ctx, status, ["OrixProofs.Properties.C19", "OrixProofs.Lemmas.SamplingBasic",
-                                         "OrixProofs.Lemmas.SamplingUV", "OrixProofs.Lemmas.SamplingCube",
+                                         "OrixProofs.Lemmas.SamplingUV", "OrixProofs.Lemmas.SamplingCube", "OrixProofs.Lemmas.SamplingCubeGen",
                                          "OrixProofs.Lemmas.SamplingUVH", "OrixProofs.Lemmas.SamplingEA", "OrixProofs.Lemmas.SO3Cover"], kernels=["so3_quat_point", "from_polar_xyz"])
     if ctx.replay:
         site, case, body = sites.load_replay(ctx.replay)
